@@ -27,6 +27,12 @@ REQUIRED = [
     "DaeVerif.C14.Props.fixed_out_of_range_builds",
     "DaeVerif.C14.Props.fixed_selects_ith_member",
     "DaeVerif.C14.Props.selection_local",
+    "DaeVerif.C14.Props.atoi_iff_decimal",
+    "DaeVerif.C14.Props.groups_built_iff",
+    "DaeVerif.C14.Props.group_in_sequence_is_meaning",
+    "DaeVerif.C14.Props.groups_error_iff",
+    "DaeVerif.C14.Props.dur_bare_number_rejected",
+    "DaeVerif.C14.Props.unitless_latency_is_config_error",
 ]
 
 # discrimination counters that must be non-zero in every tier (a generator edit that makes one of
@@ -44,11 +50,13 @@ GUARD_OUTBOUND = [
     "discrim.regexopt.IgnoreCase_would_change_members", "discrim.regexopt.RE2_would_change_members",
     "discrim.regexopt.ECMAScript_would_change_members",
     "def.with_two_invalid_items", "parser.definition_compared_with_what_was_written",
+    "dur.result_ok_with_fraction", "dur.result_error", "dur.near_miss", "invalid.key_keyword_on_subtag",
 ]
 GUARD_CTL = [
     "discrim.override_group_built_nonempty", "discrim.large_pool_group_built",
     "discrim.multi_subscription_group_built", "group.members_are_override_clones",
     "policy.fixed_near_range", "policy.fixed_at_len", "pool.with_unparsable_link",
+    "discrim.subtag_group_after_unfiltered_override_group_sees_tags", "discrim.sequence_of_2_plus_groups_built",
 ]
 
 
@@ -127,15 +135,18 @@ def extract_group_region(ctx):
         f.write(""")
 
 type c14Region struct {
-	DialerSet  *outbound.DialerSet
-	Outbounds  []*outbound.DialerGroup // [0], [1] stand for direct / block
-	DeferFuncs []func() error
+	DialerSet   *outbound.DialerSet
+	Outbounds   []*outbound.DialerGroup // [0], [1] stand for direct / block
+	DeferFuncs  []func() error
+	CallbackIDs []uint8 // the outbound ids the region asked alive-change callbacks for, in order
 }
 
-// stands for *controlPlaneCore: the kernel connectivity callback is C16's subject
-type c14StubCore struct{}
+// stands for *controlPlaneCore: what the kernel connectivity callback DOES is C16's subject; here
+// only which outbound id each group is wired to is recorded.
+type c14StubCore struct{ ids []uint8 }
 
-func (c14StubCore) outboundAliveChangeCallback(uint8, bool) func(bool, *dialer.NetworkType, bool) {
+func (c *c14StubCore) outboundAliveChangeCallback(id uint8, _ bool) func(bool, *dialer.NetworkType, bool) {
+	c.ids = append(c.ids, id)
 	return func(bool, *dialer.NetworkType, bool) {}
 }
 
@@ -143,12 +154,12 @@ func c14RealGroupRegion(option *dialer.GlobalOption, tagToNodeList map[string][]
 	var deferFuncs []func() error
 	var dialerSet *outbound.DialerSet
 	outbounds := []*outbound.DialerGroup{nil, nil}
-	core := c14StubCore{}
+	core := &c14StubCore{}
 	disableKernelAliveCallback := true
 	_, _, _, _ = core, disableKernelAliveCallback, global, log
 	defer func() {
 		if err != nil {
-			res = &c14Region{DialerSet: dialerSet, DeferFuncs: deferFuncs}
+			res = &c14Region{DialerSet: dialerSet, DeferFuncs: deferFuncs, CallbackIDs: core.ids}
 		}
 	}()
 	// ---------------------------------------------------------------- verbatim from control_plane.go
@@ -156,7 +167,7 @@ func c14RealGroupRegion(option *dialer.GlobalOption, tagToNodeList map[string][]
         f.write(region)
         f.write("""
 	// ---------------------------------------------------------------- end of verbatim region
-	return &c14Region{DialerSet: dialerSet, Outbounds: outbounds, DeferFuncs: deferFuncs}, nil
+	return &c14Region{DialerSet: dialerSet, Outbounds: outbounds, DeferFuncs: deferFuncs, CallbackIDs: core.ids}, nil
 }
 """)
     return gen, "bytes %d..%d of control_plane.go (%d lines)" % (a, b, region.count("\n") + 1)
@@ -176,7 +187,7 @@ def side_dict(s):
     return dict(kv.split("=", 1) for kv in s.split()[1:] if "=" in kv)
 
 
-def compare_stream(ctx, name, report, stricter):
+def compare_stream(ctx, name, report, stricter, permissive):
     ops, impl, model, side = (os.path.join(ctx.out, f"{name}.{e}") for e in ("ops", "impl", "model", "side"))
     if not ctx.driver("c14drv", ops, model):
         ctx.proof_failures.append(f"model driver c14drv failed to run on {name}")
@@ -196,11 +207,29 @@ def compare_stream(ctx, name, report, stricter):
         # the implementation is STRICTER than the model in a zone where the model is knowingly
         # lenient (`!min(7)`; fixed(i) out of range accepted at configuration time): towards the
         # property, not a violation — counted and shown.
-        if canon(im) == "ERR" and mdl.startswith("ok pol=") and (
-                sd.get("lenient") == "true" or mdl.endswith(("sel=range", "sel=empty"))):
+        if canon(im) == "ERR" and mdl.startswith("ok ") and "pol=" in mdl and (
+                sd.get("lenient") == "true" or "sel=range" in mdl or "sel=empty" in mdl):
             stricter.append((name, ln))
             continue
+        # the implementation is MORE PERMISSIVE in the one direction whose meaning is fixed by the
+        # documentation's own vocabulary: `keyword:` on `subtag(...)` = substring of the tag.  Accepted
+        # only if the members are exactly that meaning (the Go-side oracle computes it); anything
+        # else that is accepted although invalid stays a violation.
+        if canon(mdl) == "ERR" and im.startswith("ok ") and sd.get("kwsubtag") == "true":
+            f = im.split()
+            if (op.startswith("fa ") and len(f) == 3 and "spec=" + f[1] == f[2]) or op.startswith(("grp ", "grps ")):
+                permissive.append((name, ln))
+                continue
         real.append((ln, op, im, mdl))
+    # a relaxation must be a property of the DEFINITION, not of the pool: if `keyword:` on subtag is
+    # accepted somewhere, every definition that is invalid only for that reason must be accepted
+    if any(n == name for n, _ in permissive):
+        for k, (op, im) in enumerate(zip(o, i)):
+            sd = side_dict(s[k]) if k < len(s) else {}
+            if sd.get("kwsubtag") == "true" and canon(im) == "ERR":
+                report("relaxation-inconsistent",
+                       "`keyword:` on subtag(...) is accepted for some pools and rejected for others "
+                       "(validity must not depend on the nodes): " + im[:160], {"op": op, "impl": im})
     for ln, op, im, mdl in real[:6]:
         report("model", f"implementation differs from proved model ({name} line {ln}): impl `{im[:200]}` model `{mdl[:200]}`",
                {"stream": name, "line": ln, "op": op, "impl": im, "model": mdl,
@@ -225,7 +254,7 @@ def run(ctx):
         if budget[kind] <= 4:
             ctx.report(what, obj)
 
-    stricter = []
+    stricter, permissive = [], []
     hov = os.path.join(VERIF, "harness", "overlay")
 
     # ------------------------------------------------------------------ A. package outbound
@@ -237,7 +266,7 @@ def run(ctx):
     if rc != 0 or not os.path.exists(os.path.join(ctx.out, "c14.ops")):
         ctx.say("HARNESS-FAILED", out[-3000:])
         return 2
-    o, i, s = compare_stream(ctx, "c14", report, stricter)
+    o, i, s = compare_stream(ctx, "c14", report, stricter, permissive)
 
     # property-level oracles on the implementation side (independent of the Lean model):
     #  (1) a definition is rejected iff it is invalid (documented inputs/keys, compiling regexes,
@@ -265,7 +294,10 @@ def run(ctx):
                    + bytes.fromhex(sd["parserchanged"][1:]).decode("utf-8", "replace"), {"op": op, "impl": im})
         if lens_ok and valid and canon(im) == "ERR":
             report("valid-rejected", f"valid group definition rejected by the implementation: {im[:200]}", {"op": op, "impl": im})
-        if lens_ok and not valid and im.startswith("ok "):
+        if lens_ok and not valid and im.startswith("ok ") and sd.get("kwsubtag") == "true" and \
+                len(im.split()) == 3 and "spec=" + im.split()[1] == im.split()[2]:
+            pass   # counted as `more permissive, meaning preserved` by compare_stream
+        elif lens_ok and not valid and im.startswith("ok "):
             report("invalid-accepted", "invalid filter/annotation accepted silently by the implementation (selection: %s)" % im[:200],
                    {"op": op, "impl": im, "replay": "VERIF_SEED=%d ./check C14 %s" % (ctx.seed, ctx.tier)})
         if im.startswith("ok "):
@@ -295,7 +327,7 @@ def run(ctx):
     if rc != 0 or not os.path.exists(os.path.join(ctx.out, "c14ctl.ops")):
         ctx.say("HARNESS-FAILED", out[-3000:])
         return 2
-    co, ci, cs = compare_stream(ctx, "c14ctl", report, stricter)
+    co, ci, cs = compare_stream(ctx, "c14ctl", report, stricter, permissive)
     n_ctl = n_pool_checked = 0
     for k, (op, im) in enumerate(zip(co, ci)):
         sd = side_dict(cs[k]) if k < len(cs) else {}
@@ -312,7 +344,10 @@ def run(ctx):
         if sd.get("parserchanged", "-") != "-":
             report("parser", "config parser delivered another definition than the one written: "
                    + bytes.fromhex(sd["parserchanged"][1:]).decode("utf-8", "replace"), {"op": op, "impl": im})
-        if sd.get("valid") == "false" and im.startswith("ok "):
+        if sd.get("ids", "-") not in ("-", "ok"):
+            report("ids", "groups are not wired to outbound ids 2,3,.. in configuration order (%s)" % sd.get("ids"),
+                   {"op": op, "impl": im, "side": cs[k]})
+        if sd.get("valid") == "false" and im.startswith("ok ") and sd.get("kwsubtag") != "true":
             report("invalid-accepted", "invalid filter/annotation accepted silently by the control-plane region (%s)" % im[:200],
                    {"op": op, "impl": im})
     cstats = json.load(open(os.path.join(ctx.out, "c14ctl.stats.json")))
@@ -323,6 +358,10 @@ def run(ctx):
     if dead:
         ctx.say("GENERATOR-DEGENERATE C14: discrimination counter(s) at 0:", ", ".join(dead))
         return 2
+    if permissive:
+        ctx.say(f"NOTE C14: the implementation accepts `keyword:` on subtag(...) in {len(permissive)} op(s) the model rejects, "
+                "with exactly the substring-of-the-tag meaning: a language extension the property allows; update "
+                "Model.lean (validateParams / tagParam / ParamValid) to the new code")
     if stricter:
         ctx.say(f"NOTE C14: the implementation rejects {len(stricter)} definition(s) the model accepts only by "
                 "leniency (negated/parameterised parameterless policy, or fixed(i) out of range): stricter than the "
@@ -337,6 +376,7 @@ def run(ctx):
     ctx.cov["control_plane_region_ops"] = n_ctl
     ctx.cov["control_plane_region_ops_pool_as_written"] = n_pool_checked
     ctx.cov["stricter_than_model_in_lenient_zone"] = len(stricter)
+    ctx.cov["more_permissive_keyword_on_subtag"] = len(permissive)
     ctx.cov["disagreements_by_kind"] = budget
     ctx.assumptions = [
         "pools of 0..14 nodes (1.5 % of them 64..600 nodes), definitions of 0..12 lines x 0..5 conditions x 0..6 values, "
